@@ -67,7 +67,7 @@ func HC03_Query() {
 	x := hNew(prof, 6, capInc, relInc)
 	x.prefix(vChoice("prefix", hNPrefix))
 	if vTier() == 1 {
-		x.legalStep(vChoice("op", hNOps))
+		x.legalStepSmall([3]int{0, 2, 8}[vChoice("op", 3)])
 	}
 	f, t := x.pickFilter("filter")
 	b := x.mkFilter(f, t)
